@@ -45,7 +45,7 @@ impl Check for C04 {
         }
     }
     fn generate(&self, rng: &mut Prng, tier: Tier, idx: u64) -> Value {
-        let vec_ops: Vec<&str> = crate::ops_vec::VEC_OPS.iter().chain(crate::ops_vec::VEC4_OPS).copied().collect();
+        let vec_ops: Vec<&str> = crate::ops_vec::VEC_OPS.iter().chain(crate::ops_vec::VEC4_OPS).chain(crate::ops_vec::VEC3_OPS).copied().collect();
         let n = NATIVE_OPS.len() + NG_OPS.len() + 1 + vec_ops.len();
         let i = (idx as usize) % n;
         if i > NATIVE_OPS.len() + NG_OPS.len() {
